@@ -64,7 +64,9 @@ Record fobs := { fo_tree : fs; fo_ws : list wobs }.
 
 Inductive probe :=
 | PCrash (out : option exn) (states : list fobs)
-| PFault (s : csig) (occ : nat) (e : errno) (out : option exn) (post : fobs).
+| PFault (s : csig) (occ : nat) (e : errno) (out : option exn) (post : fobs)
+| PFault2 (s1 : csig) (occ1 : nat) (e1 : errno) (s2 : csig) (occ2 : nat) (e2 : errno)
+          (out : option exn) (post : fobs).      (* a second fault later in the same (faulted) run *)
 
 Record case_C11 := {
   k_atomic : bool;
@@ -158,6 +160,19 @@ Definition mismatch_C11 (c : case_C11) : bool :=
           let '(f, o) := run_fault (single k e) 0 (prog_of c) (k_pre c) in
           negb (out_match o out && fobs_match fr (k_wss c) f post)
       end
+  | PFault2 s1 occ1 e1 s2 occ2 e2 out post =>
+      match find_occ s1 occ1 (call_list c) 0 with
+      | None => true
+      | Some k1 =>
+          (* the second position is counted in the run that already contains the first fault *)
+          match find_occ s2 occ2 (map fst (trace_fault (single k1 e1) 0 (prog_of c) (k_pre c))) 0 with
+          | None => true
+          | Some k2 =>
+              let plan := fun i => if Nat.eqb i k1 then Some e1 else if Nat.eqb i k2 then Some e2 else None in
+              let '(f, o) := run_fault plan 0 (prog_of c) (k_pre c) in
+              negb (Nat.ltb k1 k2 && out_match o out && fobs_match fr (k_wss c) f post)
+          end
+      end
   end.
 
 (* ------------------------------------------------------------------ the oracle *)
@@ -191,6 +206,11 @@ Definition holds_C11 (c : case_C11) : bool :=
       | None => post_ok (frepr_of c) (k_op c) (k_pre c) (fo_tree post) && holds_obs c post   (* never a silent partial success *)
       | Some _ => holds_obs c post && fault_state_ok c post   (* an exception, and the pre-state or a detectable CInv state *)
       end
+  | PFault2 _ _ _ _ _ _ out post =>
+      match out with
+      | None => post_ok (frepr_of c) (k_op c) (k_pre c) (fo_tree post) && holds_obs c post
+      | Some _ => holds_obs c post && fault_state_ok c post
+      end
   end.
 
 Definition violation_C11 (c : case_C11) : bool := negb (holds_C11 c).
@@ -202,13 +222,14 @@ Definition violations_C11 (cs : list case_C11) : list N := indices_where violati
 (* tag 1: Project.clone — a fault while copying any entry other than the state point file (or on the
    destination's own mkdir) leaves a destination that validates but is incomplete *)
 Definition known_tag_C11 (c : case_C11) : N :=
+  let hit (ws : path) (i : str) (s : csig) : bool :=
+    let d := dst_dir (frepr_of c) (k_op c) (k_pre c) in
+    negb (str_eqb (last (sg_p s) []) SPF)
+    && negb (ckind_eqb (sg_kind s) SgMkdir && path_eqb (sg_p s) d)
+    && (under d (sg_p s) || under (ws ++ [i]) (sg_p s)) in
   match k_op c, k_probe c with
-  | KClone ws i dws, PFault s _ _ (Some _) _ =>
-      let d := dst_dir (frepr_of c) (k_op c) (k_pre c) in
-      if negb (str_eqb (last (sg_p s) []) SPF)
-         && negb (ckind_eqb (sg_kind s) SgMkdir && path_eqb (sg_p s) d)
-         && (under d (sg_p s) || under (ws ++ [i]) (sg_p s))
-      then 1 else 0
+  | KClone ws i dws, PFault s _ _ (Some _) _ => if hit ws i s then 1 else 0
+  | KClone ws i dws, PFault2 s1 _ _ s2 _ _ (Some _) _ => if hit ws i s1 || hit ws i s2 then 1 else 0
   | _, _ => 0
   end%N.
 
